@@ -8,20 +8,23 @@ namespace Qbice.Core
 -- ------------------------------------------------------------------ histories
 
 inductive Op where
-  | sess (sets : List (Key × Val))
+  | sess (ws : List Write)
   | round (ks : List Key)
 
+/-- what an operation returns: the write results of a session; the values of a round together with
+    the executor invocations of the round (the observable that tells which external keys were
+    demanded for the first time) -/
 inductive OpOut where
   | sess (rs : List SetRes)
-  | round (vs : List Val)
+  | round (vs : List Val) (execs : List Key)
   deriving DecidableEq, Repr
 
 /-- a history driven the way the correspondence driver drives the model: every operation starts
     with an empty execution log, rounds use `fuelFor p` -/
 def runOps (p : Program) : List Op → St → Except Err (List OpOut × St)
   | [], s => .ok ([], s)
-  | .sess sets :: rest, s =>
-    match session p sets { s with log := [] } with
+  | .sess ws :: rest, s =>
+    match session p ws { s with log := [] } with
     | .error e => .error e
     | .ok (rs, s1) =>
       match runOps p rest s1 with
@@ -33,16 +36,110 @@ def runOps (p : Program) : List Op → St → Except Err (List OpOut × St)
     | .ok (vs, s1) =>
       match runOps p rest s1 with
       | .error e => .error e
-      | .ok (outs, s2) => .ok (.round vs :: outs, s2)
+      | .ok (outs, s2) => .ok (.round vs s1.log :: outs, s2)
 
-/-- the outputs of a history are those of the from-scratch reference on the inputs `i` -/
-def OutOK (p : Program) : List Op → List OpOut → (Key → Option Val) → Prop
+/-- the state of the from-scratch reference: committed inputs, the external values pinned so far
+    (first demand / last refresh), the world -/
+structure Ref where
+  inputs : Key → Option Val
+  pins : Key → Option Val
+  world : Key → Val
+
+def Ref.init : Ref := ⟨fun _ => none, fun _ => none, fun _ => 0⟩
+
+def refOf (s : St) : Ref := ⟨inputsOf s, pinsOf s, s.world⟩
+
+/-- the external keys whose executor ran during a round are pinned at the current world -/
+def pinLogged (p : Program) (w : Key → Val) (execs : List Key) (e : Key → Option Val) (k : Key) :
+    Option Val :=
+  match e k with
+  | some v => some v
+  | none =>
+    match p[k]? with
+    | some d => if d.kind = .external ∧ k ∈ execs then some (d.ext w) else none
+    | none => none
+
+/-- the outputs of a history are those of the from-scratch reference -/
+def OutOK (p : Program) : List Op → List OpOut → Ref → Prop
   | [], [], _ => True
-  | .sess sets :: ops, .sess rs :: outs, i =>
-    rs = writeResults sets i ∧ OutOK p ops outs (applyWrites sets i)
-  | .round ks :: ops, .round vs :: outs, i =>
-    vs.map some = ks.map (fun k => evalSpec p i (k + 1) k) ∧ OutOK p ops outs i
+  | .sess ws :: ops, .sess rs :: outs, r =>
+    rs = writeResults ws r.inputs ∧
+      OutOK p ops outs ⟨applyWrites ws r.inputs,
+        applyRefresh p (applyWorld ws r.world) ws r.pins, applyWorld ws r.world⟩
+  | .round ks :: ops, .round vs execs :: outs, r =>
+    vs.map some = ks.map (fun k => evalSpec p r.inputs (extRef p r.pins r.world) (k + 1) k) ∧
+      OutOK p ops outs { r with pins := pinLogged p r.world execs r.pins }
   | _, _, _ => False
+
+/-- the pinned external values after a run of queries: those before, plus the external keys
+    executed (for the first time) at the world of the run -/
+theorem Frame.pins {p : Program} {s s' : St} (f : Frame p s s') (inv : Inv p s) (inv' : Inv p s')
+    {new : List Key} (hl : s'.log = s.log ++ new) :
+    pinsOf s' = pinLogged p s.world new (pinsOf s) := by
+  obtain ⟨new', h1, _, j, born⟩ := f.log
+  have : new' = new := List.append_cancel_left (h1.symm.trans hl)
+  subst this
+  funext x
+  have hext := congrFun f.ext x
+  simp only [extOf, extRef, f.world] at hext
+  simp only [pinLogged]
+  cases hx : s.nodes x with
+  | none =>
+    have h0 : pinsOf s x = none := by simp [pinsOf, hx]
+    rw [h0] at hext ⊢
+    simp only
+    cases hx' : s'.nodes x with
+    | none =>
+      have h0' : pinsOf s' x = none := by simp [pinsOf, hx']
+      rw [h0']
+      cases hp : p[x]? with
+      | none => rfl
+      | some d =>
+        simp only
+        rw [if_neg]
+        rintro ⟨_, hm⟩
+        obtain ⟨n', hn', _⟩ := (j x hm).2
+        rw [hx'] at hn'; cases hn'
+    | some n' =>
+      have hm : x ∈ new' := born x hx (by rw [hx']; simp)
+      obtain ⟨d, hp, hk, _⟩ := inv'.kind x n' hx'
+      rw [hp] at hext ⊢
+      simp only at hext ⊢
+      by_cases he : n'.kind = .external
+      · have h1' : pinsOf s' x = some n'.value := by simp [pinsOf, hx', he]
+        rw [h1'] at hext ⊢
+        simp only at hext
+        rw [if_pos ⟨by rw [hk]; exact he, hm⟩]
+        exact hext
+      · have h1' : pinsOf s' x = none := by simp [pinsOf, hx', he]
+        rw [h1', if_neg]
+        rintro ⟨h, _⟩
+        exact he (by rw [← hk]; exact h)
+  | some n =>
+    obtain ⟨d, hp, hk, _⟩ := inv.kind x n hx
+    have hn' : ∃ n', s'.nodes x = some n' ∧ n'.kind = n.kind := by
+      cases f.same_or_verified x with
+      | inl e => exact ⟨n, by rw [e]; exact hx, rfl⟩
+      | inr v =>
+        obtain ⟨n', hn', _⟩ := v
+        obtain ⟨d', hp', hk', _⟩ := inv'.kind x n' hn'
+        rw [hp] at hp'; cases hp'
+        exact ⟨n', hn', by rw [← hk', hk]⟩
+    obtain ⟨n', hx', hk'⟩ := hn'
+    by_cases he : n.kind = .external
+    · have h0 : pinsOf s x = some n.value := by simp [pinsOf, hx, he]
+      have h1' : pinsOf s' x = some n'.value := by simp [pinsOf, hx', hk', he]
+      rw [h0, h1'] at hext
+      rw [h0, h1']
+      simp only at hext ⊢
+      exact hext
+    · have h0 : pinsOf s x = none := by simp [pinsOf, hx, he]
+      have h1' : pinsOf s' x = none := by simp [pinsOf, hx', hk', he]
+      rw [h0, h1', hp]
+      simp only
+      rw [if_neg]
+      rintro ⟨h, _⟩
+      exact he (by rw [← hk]; exact h)
 
 theorem Inv.setLog {p : Program} {s : St} (inv : Inv p s) (l : List Key) :
     Inv p { s with log := l } := by
@@ -109,7 +206,7 @@ theorem roundAux_spec {p : Program} (wf : WF p) {fuel : Nat} (hf : p.length < fu
           simp only at i1 f1 c1 ⊢
           have hc1 : ∀ e, e ∈ cache ++ [(k, v)] → cur p s1 e.1 = some e.2 := by
             intro e he
-            rw [cur_congr f1.inputs]
+            rw [f1.cur]
             rw [List.mem_append, List.mem_singleton] at he
             cases he with
             | inl he => exact hc e he
@@ -118,7 +215,7 @@ theorem roundAux_spec {p : Program} (wf : WF p) {fuel : Nat} (hf : p.length < fu
           rintro ⟨vs, s'⟩ ⟨⟨vs', h1, h2⟩, i', f'⟩
           simp only at h1
           refine ⟨⟨v :: vs', by simp [h1], ?_⟩, i', f1.trans f'⟩
-          simp only [List.map_cons, h2, c1, cur_congr f1.inputs]
+          simp only [List.map_cons, h2, c1, f1.cur]
       · obtain ⟨f, rfl⟩ : ∃ f, fuel = f + 1 := ⟨fuel - 1, by omega⟩
         rw [query_badKey inv (by komega) f]
         simp [Sat]
@@ -134,41 +231,44 @@ theorem round_spec {p : Program} (wf : WF p) {s : St} (inv : Inv p s) (ks : List
   exact ⟨h2, i', f'⟩
 
 theorem applySets_not_oof (p : Program) :
-    ∀ (sets : List (Key × Val)) (s : St) (rs : List SetRes) (ch : List Key),
-      applySets p sets s rs ch ≠ .error .outOfFuel := by
-  intro sets
-  induction sets with
+    ∀ (ws : List Write) (s : St) (rs : List SetRes) (ch : List Key),
+      applySets p ws s rs ch ≠ .error .outOfFuel := by
+  intro ws
+  induction ws with
   | nil => intro s rs ch h; simp [applySets] at h
   | cons w rest ih =>
     intro s rs ch
-    obtain ⟨k, v⟩ := w
-    simp only [applySets]
-    cases p[k]? with
-    | none => simp
-    | some d =>
-      simp only
-      cases d.isInput with
-      | false => simp
-      | true => simp only [Bool.not_true, Bool.false_eq_true, if_false]; exact ih _ _ _
+    cases w with
+    | world c v => simp only [applySets]; exact ih _ _ _
+    | refresh => simp only [applySets]; exact ih _ _ _
+    | set k v =>
+      simp only [applySets]
+      cases p[k]? with
+      | none => simp
+      | some d =>
+        simp only
+        split
+        · simp
+        · exact ih _ _ _
 
 theorem runOps_spec {p : Program} (wf : WF p) :
     ∀ (ops : List Op) (s : St), Inv p s →
-      Sat (runOps p ops s) (fun r => OutOK p ops r.1 (inputsOf s) ∧ Inv p r.2) := by
+      Sat (runOps p ops s) (fun r => OutOK p ops r.1 (refOf s) ∧ Inv p r.2) := by
   intro ops
   induction ops with
   | nil => intro s inv; exact ⟨trivial, inv⟩
   | cons op rest ih =>
     intro s inv
     cases op with
-    | sess sets =>
+    | sess ws =>
       simp only [runOps]
-      cases hs : session p sets { s with log := [] } with
+      cases hs : session p ws { s with log := [] } with
       | error e =>
         simp only [Sat]
         intro he; subst he
         rw [session_eq] at hs
         -- `applySets` never runs out of fuel
-        cases ha : applySets p sets { { s with log := [] } with epoch := s.epoch + 1 } [] [] with
+        cases ha : applySets p ws (sessionStart ws { s with log := [] }) [] [] with
         | error e' =>
           rw [ha] at hs
           simp only at hs
@@ -177,7 +277,7 @@ theorem runOps_spec {p : Program} (wf : WF p) :
         | ok r => rw [ha] at hs; obtain ⟨_, _, _⟩ := r; cases hs
       | ok r =>
         obtain ⟨rs, s1⟩ := r
-        obtain ⟨i1, h1, h2, _, _⟩ := session_spec (inv.setLog []) hs
+        obtain ⟨i1, h1, h2, _, h3, h4, _⟩ := session_spec (inv.setLog []) hs
         simp only
         have hrest := ih s1 i1
         cases hr : runOps p rest s1 with
@@ -187,7 +287,13 @@ theorem runOps_spec {p : Program} (wf : WF p) :
           rw [hr] at hrest
           obtain ⟨o2, i2⟩ := hrest
           refine ⟨⟨h1, ?_⟩, i2⟩
-          have : inputsOf s1 = applyWrites sets (inputsOf s) := h2
+          have e1 : inputsOf s1 = applyWrites ws (inputsOf s) := h2
+          have e2 : s1.world = applyWorld ws s.world := h3
+          have e3 : pinsOf s1 = applyRefresh p (applyWorld ws s.world) ws (pinsOf s) := h4
+          have : refOf s1 = ⟨applyWrites ws (refOf s).inputs,
+              applyRefresh p (applyWorld ws (refOf s).world) ws (refOf s).pins,
+              applyWorld ws (refOf s).world⟩ := by
+            simp only [refOf, e1, e2, e3]
           rw [← this]; exact o2
     | round ks =>
       simp only [runOps]
@@ -207,7 +313,12 @@ theorem runOps_spec {p : Program} (wf : WF p) :
           rw [hr] at hrest
           obtain ⟨o2, i2⟩ := hrest
           refine ⟨⟨h1, ?_⟩, i2⟩
-          have : inputsOf s1 = inputsOf s := f1.inputs
+          have e1 : inputsOf s1 = inputsOf s := f1.inputs
+          have e2 : s1.world = s.world := f1.world
+          have e3 : pinsOf s1 = pinLogged p s.world s1.log (pinsOf s) :=
+            f1.pins (inv.setLog []) i1 (new := s1.log) (by simp)
+          have : refOf s1 = { refOf s with pins := pinLogged p (refOf s).world s1.log (refOf s).pins } := by
+            simp only [refOf, e1, e2, e3]
           rw [← this]; exact o2
 
 end Qbice.Core
